@@ -360,10 +360,79 @@ def e2e(c, root):
                     c.violation("the shipped %s file %s is not handled by its own adapter: %s" % (key, f, wrong[:4]), {"kind": "fixture", "format": key, "file": f, "models": wrong[:8]})
             shutil.rmtree(d, ignore_errors=True)
     stats["fixture_files_alone"] = nfix
+    checked += ordered_pairs(c, root, stats)
     c.coverage["files_checked"] = checked
     c.coverage["distribution"] = stats
     c.coverage["traces_validated_against_impl"] = checked
     return checked
+
+
+def ordered_pairs(c, root, stats):
+    """two formats side by side in ONE folder, in BOTH enumeration orders: format A's export of the standard models next to format B's export of a
+    lookup model.  The enumeration order of Path.rglob is the file system's (hash order here), so B's file is renamed until the wanted order is seen."""
+    import pathlib
+    from sidemantic import SemanticLayer
+    from sidemantic.loaders import load_from_directory
+    keys = [k for k in LOADER_NAME if k != "atscale_sml"]
+    reg, look = {}, {}
+    for k in keys:
+        try:
+            if not listed_class(c, k, ("agg", "sum")):
+                fs = export_files(k, ("agg", "sum"), root)
+                if len(fs) == 1 and own_models(k, fs[0]):
+                    reg[k] = fs[0]
+            if not listed_class(c, k, ("dims_only_single", None)):
+                fs = [fp for fp in export_files(k, ("dims_only_single", None), root) if "lookup_t" in (own_models(k, fp) or [])]
+                if len(fs) == 1:
+                    look[k] = fs[0]
+        except Exception:
+            pass
+    done = 0
+    pairs = [(a, b) for a in sorted(reg) for b in sorted(look) if a != b]
+    if c.tier == "quick":
+        pairs = [pr for i, pr in enumerate(pairs) if i % 3 == c.seed % 3 or "sidemantic" in pr or "metricflow" in pr]
+    for a, b in pairs:
+        for first in (a, b):
+            d = tempfile.mkdtemp(prefix="p_", dir=root)
+            ta = os.path.join(d, "std_" + os.path.basename(reg[a]))
+            shutil.copy(reg[a], ta)
+            ext = os.path.splitext(look[b])[1]
+            tb = None
+            for stem in ["lookup_t", "lookup_t2", "a_lookup", "z_lookup", "m1", "q7", "k_03", "dims", "x", "lk", "ref_table", "t9"]:
+                cand = os.path.join(d, stem + ext)
+                shutil.copy(look[b], cand)
+                order = [str(x) for x in pathlib.Path(d).rglob("*") if x.is_file()]
+                if (order.index(ta) < order.index(cand)) == (first == a) and own_models(b, cand):
+                    tb = cand
+                    break
+                os.remove(cand)
+            if tb is None:
+                shutil.rmtree(d, ignore_errors=True)
+                continue
+            want = [(a, ta, own_models(a, ta)), (b, tb, own_models(b, tb))]
+            logging.disable(logging.CRITICAL)
+            try:
+                L = SemanticLayer(connection="duckdb:///:memory:", auto_register=False)
+                load_from_directory(L, d)
+                err = None
+            except Exception as e:
+                err = e
+            finally:
+                logging.disable(logging.NOTSET)
+            done += 1
+            for key, target, names in want:
+                for n in names or []:
+                    m = None if err is not None else L.graph.models.get(n)
+                    fmt = getattr(m, "_source_format", None) if m is not None else None
+                    if err is not None or m is None or fmt != LOADER_NAME[key]:
+                        c.violation("a %s file next to a %s file in one folder (%s enumerated first) is not handled by its own adapter: model %s %s" % (
+                                        key, b if key == a else a, first, n, ("loading fails: %s" % str(err)[:100]) if err is not None else "is missing" if m is None else "was loaded as " + str(fmt)),
+                                    {"kind": "pair", "formats": [a, b], "enumerated_first": first, "files": [os.path.basename(ta), os.path.basename(tb)], "model": n, "loaded_as": fmt,
+                                     "content_a": open(ta, errors="replace").read()[:500], "content_b": open(tb, errors="replace").read()[:500]})
+                        break
+            shutil.rmtree(d, ignore_errors=True)
+    stats["ordered_pairs"] = done
+    return done
 
 
 def fp_rel(target, placed):
